@@ -49,17 +49,8 @@ func caseC13(c *Ctx) {
 		// capacity increments; the dump comes straight from DumpEntities, through JSON, or with spare capacity.
 		cfg.CapInc = Pick(c.R, []int{128, 128, 64, 32, 100, 1, 8})
 		n := Pick(c.R, []int{111 + c.R.Intn(18), 223 + c.R.Intn(34), 5 + c.R.Intn(296), 60 + c.R.Intn(8), 28 + c.R.Intn(6)})
-		sw := ecs.NewWorld(ecs.NewConfig().WithCapacityIncrement(Pick(c.R, []int{128, 1, 16, 300})))
-		ents := []ecs.Entity{}
-		for i := 0; i < n; i++ {
-			ents = append(ents, sw.NewEntity())
-		}
-		Shuffle(c.R, ents)
-		kill := c.R.Intn(len(ents)/2 + 1)
-		for _, e := range ents[:kill] {
-			sw.RemoveEntity(e)
-		}
-		d := sw.DumpEntities()
+		shared = helperDump(c.R, n)
+		d := shared.d
 		switch c.R.Intn(3) {
 		case 1:
 			js, _ := json.Marshal(&d)
@@ -72,13 +63,8 @@ func caseC13(c *Ctx) {
 			copy(spare, d.Entities)
 			d.Entities = spare
 		}
-		alive := append([]ecs.Entity{}, ents[kill:]...)
-		sortEnts(alive)
-		shared = &keptDump{d: d, alive: alive, ledger: map[ecs.Entity]bool{}}
-		for _, e := range ents {
-			shared.ledger[e] = true
-		}
-		p.MaxEnts = len(alive) + 40
+		shared.d = d
+		p.MaxEnts = len(shared.alive) + 40
 		p.Steps = 80
 		p.Scale(3, "NewEntity", "RemoveEntity", "NewBatch", "BatchRemoveEntities")
 		p.Zero("Reset")
